@@ -17,6 +17,8 @@ import (
 //	op lines:  reset | mem <op> | ldb <op>
 //	<op>:      get K | has K | set K V | setsync K V | del K | batch s,K,V d,K … | ip P | ws P S f|r
 //	           | setmut K V | setmutk K V | getmut K | batchmut K V
+//	           | bnew H | bset H K V | bdel H K | bwrite H     batch HANDLES: a handle lives on after
+//	             Write, may be written again (with other ops in between), several are alive at once
 //	impl line: ok | <value> | present/absent | pair <value> <value> | cur=<K:V|none> K:V K:V …
 //	           value: `nil` (nil slice = "not stored"), `-` (present, EMPTY) or hex — the three are
 //	           never merged: `db.Get(k) != nil` is the existence check used all over the node
@@ -343,11 +345,85 @@ type c20env struct {
 	haveMem bool
 	nSig    map[string]int
 	nilKeys map[string]bool // keys whose last write stored a nil slice
+	memB    map[int]dbm.Batch
+	ldbB    map[int]dbm.Batch
+	hOps    map[int][][2]string // per handle: recorded (key, value|"del") tokens, for nilKeys tracking
+	shared  map[string]bool     // keys whose MemDB value slice is the one recorded in a live batch handle
+}
+
+// handleOp runs a batch-handle op on one backend; ok=false if w is not a handle op.
+func (e *c20env) handleOp(backend string, w []string) (handled bool, err error) {
+	hs := e.memB
+	db := e.mem
+	if backend == "ldb" {
+		hs, db = e.ldbB, e.ldb
+	}
+	if len(w) < 2 {
+		return false, nil
+	}
+	switch w[0] {
+	case "bnew", "bset", "bdel", "bwrite":
+	default:
+		return false, nil
+	}
+	h := 0
+	fmt.Sscanf(w[1], "%d", &h)
+	switch w[0] {
+	case "bnew":
+		hs[h] = db.NewBatch()
+	case "bset":
+		if len(w) != 4 || hs[h] == nil {
+			return true, fmt.Errorf("bad handle op %v", w)
+		}
+		k, _ := c20parse(w[2])
+		v, _ := c20parse(w[3])
+		hs[h].Set(k, v)
+	case "bdel":
+		if len(w) != 3 || hs[h] == nil {
+			return true, fmt.Errorf("bad handle op %v", w)
+		}
+		k, _ := c20parse(w[2])
+		hs[h].Delete(k)
+	case "bwrite":
+		if hs[h] != nil {
+			hs[h].Write()
+		}
+	}
+	return true, nil
 }
 
 // track keeps nilKeys in step with the op (called once per op pair, on the `mem` line).
 func (e *c20env) track(w []string) {
 	key := func(s string) string { k, _ := c20parse(s); return string(k) }
+	// MemDB's Write stores the very slice the handle recorded: until the key is written otherwise,
+	// map entry and handle share it (so a write through a Get result would also change what the
+	// handle replays later — cross-object aliasing the value-level model does not represent; the
+	// generator keeps the getmut probe away from such keys)
+	switch w[0] {
+	case "set", "setsync", "del", "setmut", "setmutk", "batchmut":
+		delete(e.shared, key(w[1]))
+		if w[0] == "batchmut" {
+			k2 := []byte(key(w[1]))
+			k2[0] ^= 0xff
+			delete(e.shared, string(k2))
+		}
+	case "batch":
+		for _, tok := range w[1:] {
+			if p := strings.Split(tok, ","); len(p) >= 2 {
+				delete(e.shared, key(p[1]))
+			}
+		}
+	case "bwrite":
+		h := 0
+		fmt.Sscanf(w[1], "%d", &h)
+		for _, kv := range e.hOps[h] {
+			if kv[1] == "del" {
+				delete(e.shared, key(kv[0]))
+			} else {
+				e.shared[key(kv[0])] = true
+			}
+		}
+	}
 	switch w[0] {
 	case "set", "setsync":
 		e.nilKeys[key(w[1])] = w[2] == "nil"
@@ -360,6 +436,28 @@ func (e *c20env) track(w []string) {
 				e.nilKeys[key(p[1])] = p[2] == "nil"
 			} else if len(p) == 2 {
 				delete(e.nilKeys, key(p[1]))
+			}
+		}
+	case "bnew":
+		h := 0
+		fmt.Sscanf(w[1], "%d", &h)
+		e.hOps[h] = nil
+	case "bset", "bdel":
+		h := 0
+		fmt.Sscanf(w[1], "%d", &h)
+		v := "del"
+		if w[0] == "bset" {
+			v = w[3]
+		}
+		e.hOps[h] = append(e.hOps[h], [2]string{w[2], v})
+	case "bwrite":
+		h := 0
+		fmt.Sscanf(w[1], "%d", &h)
+		for _, kv := range e.hOps[h] {
+			if kv[1] == "del" {
+				delete(e.nilKeys, key(kv[0]))
+			} else {
+				e.nilKeys[key(kv[0])] = kv[1] == "nil"
 			}
 		}
 	case "setmut", "setmutk":
@@ -398,6 +496,8 @@ func (e *c20env) reset() {
 	}
 	e.haveMem = false
 	e.nilKeys = map[string]bool{}
+	e.memB, e.ldbB, e.hOps = map[int]dbm.Batch{}, map[int]dbm.Batch{}, map[int][][2]string{}
+	e.shared = map[string]bool{}
 	e.c.Op("reset", "ok")
 }
 
@@ -425,6 +525,11 @@ func (e *c20env) line(l string) {
 				err = fmt.Errorf("panic: %v", r)
 			}
 		}()
+		var handled bool
+		if handled, err = e.handleOp(w[0], w[1:]); handled {
+			res = c20res{kind: "ok"}
+			return
+		}
 		res, err = c20exec(db, w[1:])
 	}()
 	if err != nil {
@@ -475,6 +580,15 @@ func c20key(c *Ctx, minLen, maxLen int) []byte {
 	return k
 }
 
+func c20hasInt(xs []int, x int) bool {
+	for _, y := range xs {
+		if y == x {
+			return true
+		}
+	}
+	return false
+}
+
 func c20valGen(c *Ctx, allowNil bool) []byte {
 	// a dedicated share of EMPTY non-nil values (present key, zero length) and of nil values
 	switch r := c.Rng.Intn(20); {
@@ -514,7 +628,7 @@ func c20start(c *Ctx, p []byte) string {
 }
 
 func runC20(c *Ctx) {
-	c.Rule = "operation sequences (get/has/set/setsync/delete/batch/IteratorPrefix/IteratorPrefixWithStart fwd+rev; empty-and-nil-value probes through every write path read back by Get, existence check and iteration; caller-mutation probes on value, key, result and batch buffers) over keys of length 1..3 from the alphabet {00,61,62,ff} (shared prefixes, unsigned byte order), values nil (10% in a third of the cases) / empty non-nil (20%) / 1-3 random bytes, starts nil/empty/inside/just beyond/before the prefix range; each op runs on MemDB and on a temp-dir GoLevelDB; a case is distinct by op text"
+	c.Rule = "operation sequences (get/has/set/setsync/delete/batch/IteratorPrefix/IteratorPrefixWithStart fwd+rev; batch HANDLES (bnew/bset/bdel/bwrite: up to 3 alive, written repeatedly with other ops in between); empty-and-nil-value probes through every write path read back by Get, existence check and iteration; caller-mutation probes on value, key, result and batch buffers) over keys of length 1..3 from the alphabet {00,61,62,ff} (shared prefixes, unsigned byte order), values nil (10% in a third of the cases) / empty non-nil (20%) / 1-3 random bytes, starts nil/empty/inside/just beyond/before the prefix range; each op runs on MemDB and on a temp-dir GoLevelDB; a case is distinct by op text"
 	dir, err := os.MkdirTemp("/var/tmp", "verif-c20-ldb-")
 	if err != nil {
 		panic(err)
@@ -525,7 +639,7 @@ func runC20(c *Ctx) {
 		panic(err)
 	}
 	defer ldb.Close()
-	e := &c20env{c: c, mem: dbm.NewMemDB(), ldb: ldb, nilKeys: map[string]bool{}}
+	e := &c20env{c: c, mem: dbm.NewMemDB(), ldb: ldb, nilKeys: map[string]bool{}, memB: map[int]dbm.Batch{}, ldbB: map[int]dbm.Batch{}, hOps: map[int][][2]string{}, shared: map[string]bool{}}
 
 	lines := c.CorpusLines()
 	if c.Replay != "" {
@@ -546,7 +660,26 @@ func runC20(c *Ctx) {
 		// some cases never use the recorded defect classes' triggers for values (nil),
 		// so that everything else is compared on an otherwise clean state
 		allowNil := c.Rng.Intn(3) == 0
+		alive := []int{} // batch handles created in this case
 		for j := 0; j < opsPerCase; j++ {
+			// batch handles as long-lived objects: ~1/5 of the ops
+			if hr := c.Rng.Intn(100); hr < 20 {
+				switch {
+				case len(alive) == 0 || hr < 3:
+					h := 1 + c.Rng.Intn(3)
+					e.both(fmt.Sprintf("bnew %d", h))
+					if !c20hasInt(alive, h) {
+						alive = append(alive, h)
+					}
+				case hr < 10:
+					e.both(fmt.Sprintf("bset %d %s %s", alive[c.Rng.Intn(len(alive))], c20show(c20key(c, 1, 2)), c20show(c20valGen(c, allowNil))))
+				case hr < 13:
+					e.both(fmt.Sprintf("bdel %d %s", alive[c.Rng.Intn(len(alive))], c20show(c20key(c, 1, 2))))
+				default:
+					e.both(fmt.Sprintf("bwrite %d", alive[c.Rng.Intn(len(alive))]))
+				}
+				continue
+			}
 			switch r := c.Rng.Intn(100); {
 			case r < 24:
 				w := "set"
@@ -605,7 +738,11 @@ func runC20(c *Ctx) {
 			case r < 94:
 				e.both(fmt.Sprintf("setmutk %s %s", c20show(c20key(c, 1, 3)), c20show(c20valGen(c, false))))
 			case r < 97:
-				e.both("getmut " + c20show(c20key(c, 1, 3)))
+				if k := c20key(c, 1, 3); e.shared[string(k)] {
+					e.both("get " + c20show(k)) // value slice shared with a live handle: see track()
+				} else {
+					e.both("getmut " + c20show(k))
+				}
 			default:
 				e.both(fmt.Sprintf("batchmut %s %s", c20show(c20key(c, 1, 3)), c20show(c20valGen(c, false))))
 			}
